@@ -24,7 +24,12 @@ import (
 	"verif/idl"
 )
 
-func main() { os.Exit(runC19(ev.ArgTier())) }
+func main() {
+	if len(os.Args) > 2 && os.Args[1] == "inproc-child" {
+		os.Exit(inprocChild(os.Args[2]))
+	}
+	os.Exit(runC19(ev.ArgTier()))
+}
 
 // optSet is one option set of a target; Gen is the full -gen value.
 type optSet struct {
@@ -234,6 +239,7 @@ type job struct {
 	Recurse             bool
 	Reps                int
 	Vars                []string // location variations to apply
+	Tree                bool     // sources laid out with a sub/ directory (treeProgram)
 	Dirty               []string // -out directories that already hold the output of ANOTHER compilation
 	RootPlus, RootMinus string   // root file text with declarations added / with the last declaration removed
 	AltPlus, AltMinus   string   // the same for AltSrc
@@ -271,11 +277,51 @@ func (c *c19) writeSources(dir string, src map[string]string) error {
 		return err
 	}
 	for n, s := range src {
-		if err := os.WriteFile(filepath.Join(dir, n), []byte(s), 0o644); err != nil {
+		p := filepath.Join(dir, filepath.FromSlash(n))
+		if err := os.MkdirAll(filepath.Dir(p), 0o755); err != nil {
+			return err
+		}
+		if err := os.WriteFile(p, []byte(s), 0o644); err != nil {
 			return err
 		}
 	}
 	return nil
+}
+
+// treeProgram lays a program out as a small directory tree: every second file
+// (never the root) moves to sub/, include statements are rewritten accordingly
+// ("sub/x.frugal" from the top, "../y.frugal" from sub/, plain names between
+// neighbours).  The compiler names an include by the base name of its path, so
+// every reference stays valid.  layout maps file name -> path relative to the
+// source root.
+func treeProgram(p *idl.Program, layout map[string]string) *idl.Program {
+	inSub := map[string]bool{}
+	for i, f := range p.Files {
+		if i%2 == 1 && i != len(p.Files)-1 {
+			inSub[f.FileName()] = true
+			layout[f.FileName()] = "sub/" + f.FileName()
+		} else {
+			layout[f.FileName()] = f.FileName()
+		}
+	}
+	cp := *p
+	cp.Files = nil
+	for _, f := range p.Files {
+		nf := *f
+		nf.Includes = nil
+		for _, inc := range f.Includes {
+			path := inc.Path
+			switch {
+			case inSub[f.FileName()] && !inSub[inc.Path]:
+				path = "../" + inc.Path
+			case !inSub[f.FileName()] && inSub[inc.Path]:
+				path = "sub/" + inc.Path
+			}
+			nf.Includes = append(nf.Includes, &idl.Include{Path: path})
+		}
+		cp.Files = append(cp.Files, &nf)
+	}
+	return &cp
 }
 
 // compile runs the compiler once and hashes the tree below outAbs.
@@ -648,6 +694,35 @@ func (c *c19) runVariation(j *job, v, srcA, outA, rootFile string) (*obs, []stri
 		}
 		// second run into the tree left by the first
 		return c.compile(j, srcA, rootFile, "out", outA), []string{outA}
+	case "cwd-holds-decoy-includes":
+		// the working directory holds unrelated files that bear the relative
+		// names of the program's includes; the IDL is given by absolute path
+		// (even programs) or by a relative path leading out of the cwd
+		cwd := filepath.Join(j.Dir, "decoy")
+		decoys := map[string]string{}
+		for n := range j.Src {
+			if n != rootFile {
+				decoys[n] = "struct ZzDecoy {\n  1: i32 zz\n}\n"
+				decoys[filepath.Base(n)] = decoys[n]
+			}
+		}
+		c.writeSources(cwd, decoys)
+		file := filepath.Join(srcA, rootFile)
+		if j.P%2 == 1 {
+			file = filepath.Join("..", "A", "src", rootFile)
+		}
+		return c.compile(j, cwd, file, outA, outA), []string{outA, cwd}
+	case "cwd-subdir-of-idl-tree":
+		// the compiler is started from a subdirectory of the IDL tree, from
+		// which the "../x.frugal" includes of the files in sub/ also resolve
+		if !j.Tree {
+			return nil, nil
+		}
+		file := filepath.Join(srcA, rootFile)
+		if (j.P/2)%2 == 1 {
+			file = filepath.Join("..", rootFile)
+		}
+		return c.compile(j, filepath.Join(srcA, "sub"), file, outA, outA), []string{outA}
 	case "dot-slash-file":
 		// ./file and ./out spelled with a leading dot and a trailing slash
 		return c.compile(j, srcA, "./"+rootFile, "./out/", outA), []string{outA}
@@ -700,12 +775,16 @@ func revisions(p *idl.Program, style idl.Style, src map[string]string) (plus, mi
 	return plus, minus
 }
 
+// alwaysVars are applied to every key on top of the rotating ones.
+var alwaysVars = []string{"cwd-holds-decoy-includes", "cwd-subdir-of-idl-tree"}
+
 var allVars = []string{"cwd+absolute-file", "source-root", "out-absolute-nested", "out-relative-nested+relative-file-depth", "out-pre-existing-identical", "dot-slash-file"}
 
 func runC19(tier string) int {
 	run := ev.New("C19", tier, "exploration")
 	run.Assume("dirty -out directories: only the files the observed compilation emits are compared; files left by the earlier compilation may remain")
 	run.Rule("random valid multi-file programs (idl.Generate, CoreConfig scaled to 6-10 files in an include DAG, 15-30 struct-likes per file, up to 4 services and 4 scopes per file) x targets x option sets x -r on/off; every (program,target,options,-r) key is compiled R times in one place (same cwd, same arguments, output removed in between) and once per location variation (cwd + absolute file, other source root and depth, absolute nested -out, relative nested -out with a relative file path, identical pre-existing -out, ./ spellings); oracle = equality of {path relative to -out -> sha256}; distinct = (target, option set, -r, output size bucket)")
+	run.Assume("in-process sequences: compiler.Compile is called from a child of this binary, which is built against the compiler package of the tree under test; the reference for every call is the CLI in a fresh process")
 	run.Assume("sha256 equality of every emitted file is byte identity")
 	run.Assume("java generated_annotations=use is excluded: it is dated by design; use_vendor is not exercised (needs vendor annotations)")
 	bin, err := emit.FrugalBin()
@@ -721,6 +800,7 @@ func runC19(tier string) int {
 	tgts := targets()
 	base := filepath.Join(ev.ScratchDir(), "c19")
 	var jobs []*job
+	var inproc []func() // in-process sequences, one per program (inproc.go)
 	featVectors := map[string]bool{}
 	totalFiles, totalDecls := 0, 0
 	for i := 0; i < nprog; i++ {
@@ -730,17 +810,34 @@ func runC19(tier string) int {
 		if i%2 == 1 {
 			style = idl.RandomStyle(rng)
 		}
+		// every second program is laid out as a directory tree (sub/ with ../ includes)
+		layout := map[string]string{}
+		tree := i%2 == 1 && len(p.Files) >= 3
+		if tree {
+			p = treeProgram(p, layout)
+		}
+		place := func(m map[string]string) map[string]string {
+			if m == nil || !tree {
+				return m
+			}
+			out := map[string]string{}
+			for n, t := range m {
+				out[layout[n]] = t
+			}
+			return out
+		}
 		src := map[string]string{}
 		for _, f := range p.Files {
 			src[f.FileName()] = idl.RenderFile(f, style)
 			totalDecls += len(f.Decls)
 		}
+		src = place(src)
 		totalFiles += len(p.Files)
 		featVectors[strings.Join(p.FeatureList(), ",")] = true
 		if i < 2 {
 			run.Sample(map[string]interface{}{"program": i, "files": len(p.Files), "root": p.Root().FileName(), "features": p.FeatureList(), "root_text_head": clip(src[p.Root().FileName()], 500)})
 		}
-		alt := sanitizeForHTML(p, style)
+		alt := place(sanitizeForHTML(p, style))
 		rootPlus, rootMinus := revisions(p, style, src)
 		altPlus, altMinus := rootPlus, rootMinus
 		if alt != nil {
@@ -755,6 +852,12 @@ func runC19(tier string) int {
 			if am := sanitizeForHTML(&pm, style); am != nil {
 				altMinus = am[rm.FileName()]
 			}
+		}
+		{
+			i, p, src, rootPlus := i, p, src, rootPlus
+			inproc = append(inproc, func() {
+				c.runInProcess(i, p, src, rootPlus, tgts, filepath.Join(base, fmt.Sprintf("p%d", i), "inproc"))
+			})
 		}
 		for ti, t := range tgts {
 			var sets []optSet
@@ -778,7 +881,7 @@ func runC19(tier string) int {
 				for k := 0; k < knvars; k++ {
 					vars = append(vars, allVars[(i*7+ti*3+si+k*2+int(run.Seed))%len(allVars)])
 				}
-				vars = dedupe(vars)
+				vars = dedupe(append(vars, alwaysVars...))
 				var altSrc map[string]string
 				if t.Name == "html" {
 					altSrc = alt
@@ -790,7 +893,7 @@ func runC19(tier string) int {
 						dirty = []string{dirtyKinds[(i+ti+si)%len(dirtyKinds)]}
 					}
 				}
-				jobs = append(jobs, &job{P: i, Prog: p, Src: src, AltSrc: altSrc, Tgt: t, Set: s, Recurse: recurse, Reps: kreps, Vars: vars,
+				jobs = append(jobs, &job{P: i, Prog: p, Src: src, AltSrc: altSrc, Tgt: t, Set: s, Recurse: recurse, Reps: kreps, Vars: vars, Tree: tree,
 					Dirty: dirty, RootPlus: rootPlus, RootMinus: rootMinus, AltPlus: altPlus, AltMinus: altMinus,
 					Dir: filepath.Join(base, fmt.Sprintf("p%d", i), fmt.Sprintf("j%d_%d", ti, si))})
 			}
@@ -806,9 +909,21 @@ func runC19(tier string) int {
 	if run.Thorough() {
 		run.Set("thorough_cost_rule", "plain + one rotating option set per (program,target): 10 repetitions + 3 location variations; other option sets: 3 repetitions + 2 location variations")
 	}
-	run.Set("location_variation_kinds", allVars)
+	run.Set("location_variation_kinds", append(append([]string{}, allVars...), alwaysVars...))
 	run.Set("dirty_out_kinds", dirtyKinds)
 
+	run.Set("in_process_sequences(one child process per program)", len(inproc))
+	var iwg sync.WaitGroup
+	isem := make(chan struct{}, 4)
+	for _, f := range inproc {
+		iwg.Add(1)
+		go func(f func()) {
+			defer iwg.Done()
+			isem <- struct{}{}
+			defer func() { <-isem }()
+			f()
+		}(f)
+	}
 	ch := make(chan *job)
 	var wg sync.WaitGroup
 	for w := 0; w < 16; w++ {
@@ -825,6 +940,7 @@ func runC19(tier string) int {
 	}
 	close(ch)
 	wg.Wait()
+	iwg.Wait()
 	os.RemoveAll(base)
 	run.Set("rejected_in_reference_location_by_target", c.rejected)
 	return run.Finish()
